@@ -15,7 +15,7 @@ LEVEL = "exploration"
 RULE = (
     "well-formed generated encodings of all non-union structure types (with forced empty structured TPM2Bs and every "
     "selector value, i.e. every payload-less union arm), all command codes x directions x configurations (sessions, "
-    "encrypted parameters, failed responses) and the captured corpus; per input: decoder object vs events_to_obj, "
+    "encrypted parameters, failed responses) and the captured corpus; per input: decoder object vs events_to_obj (fed with a list, an iterator and the live decoder), "
     "obj_to_events of both vs the decoded events (length, path, declared type identity, value, value class), re-encoded "
     "bytes, Canonical from bytes (lazy and eager; events first, object first, each read twice) and from the object; distinct = distinct (type/code, configuration, arms, event count) cases"
 )
@@ -84,6 +84,18 @@ def check(case, rec):
     except Exception as e:
         rec.violation("events_to_obj", "raises:" + TR.mechanism(e), f"{case.short()}\nevents_to_obj raised {type(e).__name__}: {e}", case.replay())
         return
+    # the conversion takes any iterable of events: an iterator and the live decoder must give the same object as the list
+    if rec.counters.get("feeds_compared", 0) < 400 or rec.evaluations % 5 == 0:
+        try:
+            o_iter = events_to_obj(iter(events), command_code=cc)
+            o_live = events_to_obj(TR.open_decode(case.t, case.d, True, case.cc, case.enc), command_code=cc)
+            rec.count("feeds_compared")
+            if not (o_iter == obj_ev):
+                out.append(("events_to_obj-feed", "iterator", "events_to_obj(iter(events)) != events_to_obj(list of events)"))
+            if not (o_live == obj_ev):
+                out.append(("events_to_obj-feed", "live-decoder", "events_to_obj(<live decoder>) != events_to_obj(list of events)"))
+        except Exception as e:
+            out.append(("events_to_obj-feed", "raises:" + TR.mechanism(e), f"events_to_obj fed with an iterator / the live decoder raised {type(e).__name__}: {e}"))
     if obj_dec is None and events:
         out.append(("decoder-object", "none", "the decoder returned no object"))
     elif not (obj_dec == obj_ev):
